@@ -157,6 +157,10 @@ func (c *lchain) variants(b types.Block) []variant {
 			nb := cloneBlock(b)
 			t := &nb.Transactions[ti]
 			t.SiacoinInputs = append(t.SiacoinInputs, t.SiacoinInputs[0])
+			if e, ok := c.st().sces[t.SiacoinInputs[0].ParentID]; ok {
+				// the value counted twice is paid out, so that nothing but the repeated input is wrong
+				t.SiacoinOutputs = append(t.SiacoinOutputs, types.SiacoinOutput{Value: e.SiacoinOutput.Value, Address: c.addr1(1)})
+			}
 			c.resignV1(t)
 			add("c02.v1-dup-input-same-txn", nb, "reject", "")
 			// C02: a second transaction spending the same output
@@ -314,6 +318,9 @@ func (c *lchain) variants(b types.Block) []variant {
 			nb = cloneBlock(b)
 			t = &nb.Transactions[ti]
 			t.SiafundInputs = append(t.SiafundInputs, t.SiafundInputs[0])
+			if e, ok := c.st().sfes[t.SiafundInputs[0].ParentID]; ok {
+				t.SiafundOutputs = append(t.SiafundOutputs, types.SiafundOutput{Value: e.SiafundOutput.Value, Address: c.addr1(1)})
+			}
 			c.resignV1(t)
 			add("c02.v1-dup-siafund-input", nb, "reject", "")
 		}
@@ -401,6 +408,7 @@ func (c *lchain) variants(b types.Block) []variant {
 				nb := cloneBlock(b)
 				t := &nb.V2.Transactions[ti]
 				t.SiacoinInputs = append(t.SiacoinInputs, copySCI(t.SiacoinInputs[0]))
+				t.SiacoinOutputs = append(t.SiacoinOutputs, types.SiacoinOutput{Value: t.SiacoinInputs[0].Parent.SiacoinOutput.Value, Address: c.addr2(1)})
 				c.resignV2(t)
 				add("c02.v2-dup-input-same-txn", nb, "reject", "")
 				nb = cloneBlock(b)
@@ -499,6 +507,7 @@ func (c *lchain) variants(b types.Block) []variant {
 				nb = cloneBlock(b)
 				t := &nb.V2.Transactions[ti]
 				t.SiafundInputs = append(t.SiafundInputs, copySFI(t.SiafundInputs[0]))
+				t.SiafundOutputs = append(t.SiafundOutputs, types.SiafundOutput{Value: t.SiafundInputs[0].Parent.SiafundOutput.Value, Address: c.addr2(1)})
 				c.resignV2(t)
 				add("c02.v2-dup-siafund-input", nb, "reject", "")
 			}
